@@ -25,8 +25,9 @@ SPEC = {
         'complement_int_list recognises an omitted range_end by `is None` (0 is a valid bound). Not decided: the args2cmd '
         'state machine as a whole, int-list round trips and canonical form, zlib behaviour.'
         ' T18.buf: args2cmd resets the pending-backslash buffer for every argument.'
-        " T7.needquote: the quoting decision of args2cmd folded over 17 probe arguments equals 'empty or contains blank/tab'. T17.compl: complement_int_list returns format_int_list(...) on every path."),
-    'decided': ['quoting decision truth table', 'complement computed on every path', 'per-argument buffer reset', 'sh-safe class subset of shlex set, no anchors', 'raw emission only when nothing unsafe', 'empty argument branch',
+        " T7.needquote: the quoting decision of args2cmd folded over 17 probe arguments equals 'empty or contains blank/tab'. T17.compl: complement_int_list returns format_int_list(...) on every path."
+        ' T30: args2cmd interpreted abstractly over character classes with a symbolic count of pending backslashes; every path equals the MS C runtime quoting table.'),
+    'decided': ['args2cmd transducer table', 'quoting decision truth table', 'complement computed on every path', 'per-argument buffer reset', 'sh-safe class subset of shlex set, no anchors', 'raw emission only when nothing unsafe', 'empty argument branch',
                 'single-quote splice', 'style dispatch', 'cmd backslash doubling before quotes', 'gzip container agreement',
                 'range_end is None test'],
     'declined': ['args2cmd automaton equivalence with the MS C runtime', 'int list round trip / canonical form'],
